@@ -7,7 +7,9 @@ Workload (link-partner model, rv/ref/c35_usb3link.py): sub-sessions of 8 packets
   bit flipped, one payload bit flipped, two CRC bytes swapped, header CRC-16 / CRC-5 wrong in one bit, payload aborted
   with EDB EDB EDB EPF at every offset (also exactly where the CRC is due), payload shorter / longer than the header's
   length, a K-symbol inside the payload, a payload crafted so that the END framing that follows it equals its CRC-32 while
-  the CRC itself is missing; non-data headers (TP/LMP/ITP), link commands, ordered-set and idle words as other traffic;
+  the CRC itself is missing; non-data headers (TP/LMP/ITP and the reserved types 0x09/0x0A/0x18 one bit away from DATA),
+  also followed by a complete well-formed DPP (never a data packet: 'good' forbidden); data headers without a DPP followed
+  by an idle word, other framing, a link command or directly by the next header's start framing; link commands, ordered-set and idle words as other traffic;
   packets back to back or separated.  Not-valid words (what the receive path produces when SKPs are removed) are inserted
   at random (four densities) and on purpose before every kind of word -- header words, DPP start, first / middle payload
   words, *the word that completes the CRC*, the END framing -- carrying garbage, the previous word, the next word, zero
@@ -22,7 +24,7 @@ Oracle (reference receiver written from USB 3.2 7.2.1/7.2.4, no luna code): per 
   and no more bytes afterwards (exactly data-length bytes).  No strobe and no byte outside data packets.
 Not judged: latency of the report beyond "before the next packet's DPP start"; `first`/`last`/`header`/`new_header`;
   payload bytes of packets that end 'bad'; corrupt END framing after a valid CRC (not generated); data-length > 1024;
-  a data header that is not followed by its DPP is only generated with a non-framing word after it.
+  whether a DPP behind a header of another type is reported 'bad' or not at all.
 Known findings on the unchanged tree are classified narrowly (see known_findings.d/C40.json); after the ZLP finding
   (receiver stuck) the rest of that sub-session is unjudged.
 Deviation from DESIGN section 7: cases are long sessions (elaboration cost), so the quick tier has 32 cases x 128 packets.
@@ -43,6 +45,8 @@ RULE = ("case = 16 sub-sessions (DUT reset between) x 8 packets: data packets of
 REQUIRED_BINS = ["ctrl_symbol_in_last_payload_word", "good_len_mod4_0", "good_len_mod4_1", "good_len_mod4_2", "good_len_mod4_3", "zlp_good", "zlp_bad_crc", "good_long", "good_max_size_1024", "bad_max_size_1024",
                  "bad_crc32_flip", "bad_payload_flip", "bad_crc_swap", "bad_hdr_crc16", "bad_hdr_crc5", "abort_mid", "abort_at_crc",
                  "short_payload", "long_payload", "ctrl_in_payload", "nondata_header", "link_command_between", "dph_without_dpp",
+                 "dph_without_dpp_then_hpstart", "dph_without_dpp_then_framing", "type_one_bit_from_data_with_dpp", "type_bit4_set_with_dpp",
+                 "other_type_with_dpp",
                  "gap_in_header", "gap_before_dppstart", "gap_before_first_payload", "gap_in_payload", "gap_before_crc_word",
                  "gap_after_crc_word", "gap_style_next", "gap_style_hold", "gap_style_lookalike", "back_to_back", "good_after_bad_back_to_back",
                  "gap_before_crc_word_good_aligned", "gap_before_crc_word_good_unaligned"]
@@ -54,7 +58,7 @@ ASSUMPTIONS = ["a data packet = data header followed (possibly after not-valid w
                "the four symbols after the payload must be data symbols equal to the CRC-32; K-symbols there make the packet bad"]
 
 KINDS = [("good", 40), ("crc32_flip", 9), ("payload_flip", 7), ("crc_swap", 3), ("hdr_crc16", 6), ("hdr_crc5", 5), ("abort", 7),
-         ("short", 4), ("long", 4), ("ctrl_in_payload", 5), ("crafted_no_crc", 2), ("nondata", 6), ("dph_no_dpp", 2)]
+         ("short", 4), ("long", 4), ("ctrl_in_payload", 5), ("crafted_no_crc", 2), ("nondata", 5), ("dph_no_dpp", 4), ("other_type_with_dpp", 4)]
 GAP_ROLES = ["dw0", "dw1", "dw2", "dw3", "sdp", "pay_first", "pay_mid", "crc", "end"]
 KSYMS = [L.SKP, L.SUB, L.COM, L.END, L.EDB, L.SHP, L.SDP, L.EPF]
 
@@ -197,7 +201,15 @@ class Session:
             n = rng.randint(4, 40)
         htype = L.HDR_TYPE_DATA
         if kind == "nondata":
-            htype = rng.choice([L.HDR_TYPE_LMP, L.HDR_TYPE_TP, L.HDR_TYPE_ITP])
+            htype = rng.choice([L.HDR_TYPE_LMP, L.HDR_TYPE_TP, L.HDR_TYPE_ITP, 0x09, 0x0A, 0x18])
+        if kind == "other_type_with_dpp":
+            # a header whose type is not DATA (one bit away from it, or a defined other type) but which looks like a data
+            # header in every other respect and is followed by a well-formed DPP: not a data packet, never 'good'
+            htype = rng.choice([0x09, 0x0A, 0x18, 0x09, 0x0A, 0x18, L.HDR_TYPE_LMP, L.HDR_TYPE_ITP, L.HDR_TYPE_TP])
+            kind_bin = "type_one_bit_from_data_with_dpp" if htype in (0x09, 0x0A, 0x18, 0x00, 0x0C) else "other_type_with_dpp"
+            res.bin(kind_bin)
+            if htype == 0x18:
+                res.bin("type_bit4_set_with_dpp")
         dw0 = htype | (rng.getrandbits(27) << 5)
         dw1 = rng.getrandbits(16) | (n << 16)
         if kind == "nondata":
@@ -227,7 +239,20 @@ class Session:
             pkt["i_last"] = len(self.script) - 1
             return pkt
         if kind == "dph_no_dpp":
-            self.put(1, 0, 0)
+            follow = rng.choice(["idle", "hpstart", "hpstart", "lcstart", "framing"])
+            if follow == "idle":
+                self.put(1, 0, 0)
+            elif follow == "lcstart":
+                for (d, c) in L.link_command_words(rng.randrange(16), rng.randrange(16)):
+                    self.put(1, d, c)
+            elif follow == "framing":
+                self.put(1, *rng.choice([L.DPPEND, L.DPPABORT, L.pack_word([L.K(L.SKP)] * 4)]))
+            else:
+                # the start framing of the next header packet follows the header directly
+                pkt["next_directly"] = True
+                res.bin("dph_without_dpp_then_hpstart")
+            if follow in ("lcstart", "framing"):
+                res.bin("dph_without_dpp_then_framing")
             pkt["expect"] = "silent"
             res.bin("dph_without_dpp")
             self.packets.append(pkt)
@@ -309,7 +334,7 @@ class Session:
             pkt["ctrl_first_in_last_payload_word"] = bool((words[j_pay_last][1] & ((1 << lanes) - 1))
                                                           and all(words[j][1] == 0 for j in range(1, j_pay_last)))
         verdict, pl = ref_verdict(n, syms)
-        if not header_ok:
+        if not header_ok or kind == "other_type_with_dpp":
             pkt["expect"] = "none"
         else:
             pkt["expect"] = verdict
@@ -363,8 +388,12 @@ class Session:
             prev = None
             for k in range(n_pkt):
                 n_before = len(self.script)
-                nfill = self.filler() if (k or rng.random() < 0.5) else 0
-                pkt = self.packet()
+                direct = prev is not None and prev.get("next_directly")
+                nfill = self.filler() if ((k or rng.random() < 0.5) and not direct) else 0
+                pkt = self.packet(kind=pick_weighted(rng, [kk for kk in KINDS if kk[0] not in ("nondata", "dph_no_dpp", "other_type_with_dpp")])
+                                  if direct else None)
+                if direct:
+                    pkt["after_dph_without_dpp"] = True
                 if prev is not None and nfill == 0 and pkt["i_hp"] == n_before:
                     res.bin("back_to_back")
                     if prev["expect"] in ("bad", "none") and pkt["expect"] == "good":
@@ -474,6 +503,8 @@ def judge(res, sess, strobes, bytes_seen, n_cycles):
             elif (not S and exp in ("good", "bad") and prev_known_tail is not None and prev_known_tail[0] == p["sub"]
                   and prev_known_tail[1] >= thp):
                 mech = "next_packet_missed_after_" + prev_known_tail[2]
+            elif not S and exp in ("good", "bad") and p.get("after_dph_without_dpp"):
+                mech = "packet_missed_after_data_header_without_payload"
             elif exp == "good":
                 if not S:
                     mech = "good_packet_not_reported"
@@ -496,7 +527,7 @@ def judge(res, sess, strobes, bytes_seen, n_cycles):
                     mech = "bad_packet_reported_more_than_once"
             else:
                 if "G" in kinds:
-                    mech = "good_with_bad_header_crc"
+                    mech = "good_for_non_data_header_type" if p["kind"] == "other_type_with_dpp" else "good_with_bad_header_crc"
                 else:
                     mech = "bad_header_packet_reported_more_than_once"
             res.violation(mech, ctx)
